@@ -911,7 +911,7 @@ func verifAssume(cond bool) {}
 //@   note registered document factories return a new non-nil document of a fixed dynamic type
 
 //@ func UnmarshalDocument :: (d, t) (result0, result1)
-//@   props C01 C02
+//@   props C01 C02 C11
 //@   ensures d == nil ==> err != nil
 //@   ensures d != nil && resolveFactory(t) != nil && docDecodes(bytes(*d), factoryTag(resolveFactory(t))) ==> err == nil
 //@   ensures err == nil && result0 != nil ==> tagof(result0) == factoryTag(resolveFactory(t)) && result0.text == bytes(*d) && fresh(result0) && jsonOK(result0) && docDecodes(result0.text, tagof(result0))
@@ -972,7 +972,7 @@ func verifAssume(cond bool) {}
 //@   checks [C01,C02] @encodesonce result1 == nil ==> ncalls("(*RequestCommand).toRawEnvelope") == 1 && ncalls("encoding/json.Marshal[*rawEnvelope]") == 1 && result0 == resultof("encoding/json.Marshal[*rawEnvelope]", 0)
 //@   checks [C01,C02] @failsifunencodable nerr("(*RequestCommand).toRawEnvelope") > 0 ==> result1 != nil
 //@ func (*ResponseCommand).MarshalJSON :: (cmd) (result0, result1)
-//@   props C01 C02 C04
+//@   props C01 C02 C04 C11
 //@   requires cmd != nil
 //@   modifies nothing
 //@   oncall [C01,C02] encoding/json.Marshal[*rawEnvelope] : a_v.(*rawEnvelope) == resultof("(*ResponseCommand).toRawEnvelope", 0) && *(a_v.(*rawEnvelope)) == atreturn("(*ResponseCommand).toRawEnvelope", *(a_v.(*rawEnvelope)))
@@ -987,20 +987,20 @@ func verifAssume(cond bool) {}
 //@   checks [C01,C02] @failsifunencodable nerr("(*Session).toRawEnvelope") > 0 ==> result1 != nil
 
 //@ func (Notification).MarshalJSON :: (not) (result0, result1)
-//@   props C01 C02 C04
+//@   props C01 C02 C04 C11
 //@   modifies nothing
 //@   oncall [C01,C02] encoding/json.Marshal[*rawEnvelope] : a_v.(*rawEnvelope) == resultof("(*Notification).toRawEnvelope", 0) && *(a_v.(*rawEnvelope)) == atreturn("(*Notification).toRawEnvelope", *(a_v.(*rawEnvelope)))
 //@   checks [C01,C02] @encodesonce result1 == nil ==> ncalls("(*Notification).toRawEnvelope") == 1 && ncalls("encoding/json.Marshal[*rawEnvelope]") == 1 && result0 == resultof("encoding/json.Marshal[*rawEnvelope]", 0)
 //@   checks [C01,C02] @failsifunencodable nerr("(*Notification).toRawEnvelope") > 0 ==> result1 != nil
 //@ func (*DocumentContainer).MarshalJSON :: (d) (result0, result1)
-//@   props C01 C02
+//@   props C01 C02 C11
 //@   requires d != nil
 //@   modifies nothing
 //@   oncall [C01,C02] encoding/json.Marshal[*rawDocumentContainer] : a_v.(*rawDocumentContainer) == resultof("(*DocumentContainer).raw", 0) && *(a_v.(*rawDocumentContainer)) == atreturn("(*DocumentContainer).raw", *(a_v.(*rawDocumentContainer)))
 //@   checks [C01,C02] @encodesonce result1 == nil ==> ncalls("(*DocumentContainer).raw") == 1 && ncalls("encoding/json.Marshal[*rawDocumentContainer]") == 1 && result0 == resultof("encoding/json.Marshal[*rawDocumentContainer]", 0)
 //@   checks [C01,C02] @failsifunencodable nerr("(*DocumentContainer).raw") > 0 ==> result1 != nil
 //@ func (*DocumentCollection).MarshalJSON :: (d) (result0, result1)
-//@   props C01 C02
+//@   props C01 C02 C11
 //@   requires d != nil
 //@   modifies nothing
 //@   oncall [C01,C02] encoding/json.Marshal[*rawDocumentCollection] : a_v.(*rawDocumentCollection) == resultof("(*DocumentCollection).raw", 0) && *(a_v.(*rawDocumentCollection)) == atreturn("(*DocumentCollection).raw", *(a_v.(*rawDocumentCollection)))
@@ -1026,7 +1026,7 @@ func verifAssume(cond bool) {}
 //@   modifies *not
 
 //@ func (*Notification).UnmarshalJSON :: (not, b) (result)
-//@   props C01 C02 C04
+//@   props C01 C02 C04 C11
 //@   requires not != nil
 //@   modifies *not
 //@   oncall [C01,C02] encoding/json.Unmarshal[*rawEnvelope] : a_data == b
@@ -1105,7 +1105,7 @@ func verifAssume(cond bool) {}
 //@   modifies *cmd
 
 //@ func (*ResponseCommand).UnmarshalJSON :: (cmd, b) (result)
-//@   props C01 C02 C04
+//@   props C01 C02 C04 C11
 //@   requires cmd != nil
 //@   modifies *cmd
 //@   oncall [C01,C02] encoding/json.Unmarshal[*rawEnvelope] : a_data == b
@@ -1206,7 +1206,7 @@ func verifAssume(cond bool) {}
 // ---- documents -------------------------------------------------------------
 
 //@ func (*DocumentContainer).raw :: (d) (result0, result1)
-//@   props C01 C02
+//@   props C01 C02 C11
 //@   requires d != nil
 //@   ensures jsonOK(d.Value) ==> err == nil
 //@   ensures result0 != nil && fresh(result0)
@@ -1214,36 +1214,54 @@ func verifAssume(cond bool) {}
 //@   modifies nothing
 
 //@ func (*DocumentContainer).populate :: (d, raw) (result)
-//@   props C01 C02
+//@   props C01 C02 C11
 //@   requires d != nil && raw != nil && !sameobj(raw.Type, d) && !sameobj(raw.Value, d)
 //@   ensures raw.Type == nil ==> result != nil
 //@   ensures result == nil ==> d.Type == *raw.Type && raw.Value != nil
 //@   ensures result == nil && d.Value != nil ==> tagof(d.Value) == factoryTag(resolveFactory(*raw.Type)) && d.Value.text == bytes(*raw.Value)
+//@   ensures [C01,C02,C11] @accepts raw.Type != nil && raw.Value != nil && resolveFactory(*raw.Type) != nil && docDecodes(bytes(*raw.Value), factoryTag(resolveFactory(*raw.Type))) ==> result == nil  ## a container whose value decodes under its declared type is accepted
+//@   checks [C01,C02,C11] @onlythesefail result != nil ==> raw.Type == nil || nerr("UnmarshalDocument") > 0
 //@   modifies *d
 
 //@ func (*DocumentContainer).UnmarshalJSON :: (d, b) (result)
-//@   props C02
+//@   props C01 C02 C11
 //@   requires d != nil
 //@   modifies *d
+//@   oncall [C01,C02,C11] encoding/json.Unmarshal[*rawDocumentContainer] : a_data == b
+//@   oncall [C01,C02,C11] (*DocumentContainer).populate : a_raw == argof("encoding/json.Unmarshal[*rawDocumentContainer]", 1).(*rawDocumentContainer) && *a_raw == atreturn("encoding/json.Unmarshal[*rawDocumentContainer]", *a_raw)  ## populate sees exactly what json.Unmarshal decoded
+//@   oncall [C01,C02,C11] (*DocumentContainer).populate : *a_d == DocumentContainer{}  ## ... and fills a zero value
+//@   checks [C01,C02,C11] @decodesonce result == nil ==> ncalls("encoding/json.Unmarshal[*rawDocumentContainer]") == 1 && ncalls("(*DocumentContainer).populate") == 1 && nerr("encoding/json.Unmarshal[*rawDocumentContainer]") == 0 && nerr("(*DocumentContainer).populate") == 0
+//@   checks [C01,C02,C11] @storeswhole result == nil ==> *d == atreturn("(*DocumentContainer).populate", *argof("(*DocumentContainer).populate", 0))  ## the receiver ends up holding exactly the populated value
+//@   checks [C01,C02,C11] @onlythesefail result != nil ==> nerr("encoding/json.Unmarshal[*rawDocumentContainer]") > 0 || nerr("(*DocumentContainer).populate") > 0
+//@   ensures [C01,C02,C11] @untouchedonfailure result != nil ==> *d == old(*d)
 
 //@ func (*DocumentCollection).populate :: (d, raw) (result)
-//@   props C01 C02
+//@   props C01 C02 C11
 //@   requires d != nil && raw != nil && !sameobj(raw.ItemType, d) && !sameobj(raw.Items, d)
 //@   ensures raw.ItemType == nil ==> result != nil
 //@   ensures result == nil ==> d.ItemType == *raw.ItemType && d.Total == raw.Total
 //@   ensures result == nil && raw.Items != nil ==> len(d.Items) == len(raw.Items) && fresh(d.Items)
 //@   ensures result == nil && raw.Items == nil ==> d.Items == old(d.Items)
+//@   ensures [C01,C02,C11] @acceptsempty raw.ItemType != nil && len(raw.Items) == 0 ==> result == nil  ## a collection without items (absent, null or empty on the wire) is a collection
+//@   checks [C01,C02,C11] @onlythesefail result != nil ==> raw.ItemType == nil || nerr("UnmarshalDocument") > 0  ## the only refusals are a missing item type and an item that does not decode
 //@   loop 0 invariant 0 <= it_ && it_ <= len(raw.Items)
 //@   loop 0 invariant len(d.Items) == len(raw.Items) && fresh(d.Items) && d.Items != nil
 //@   modifies *d
 
 //@ func (*DocumentCollection).UnmarshalJSON :: (d, b) (result)
-//@   props C02
+//@   props C01 C02 C11
 //@   requires d != nil
 //@   modifies *d
+//@   oncall [C01,C02,C11] encoding/json.Unmarshal[*rawDocumentCollection] : a_data == b
+//@   oncall [C01,C02,C11] (*DocumentCollection).populate : a_raw == argof("encoding/json.Unmarshal[*rawDocumentCollection]", 1).(*rawDocumentCollection) && *a_raw == atreturn("encoding/json.Unmarshal[*rawDocumentCollection]", *a_raw)  ## populate sees exactly what json.Unmarshal decoded
+//@   oncall [C01,C02,C11] (*DocumentCollection).populate : *a_d == DocumentCollection{}  ## ... and fills a zero value
+//@   checks [C01,C02,C11] @decodesonce result == nil ==> ncalls("encoding/json.Unmarshal[*rawDocumentCollection]") == 1 && ncalls("(*DocumentCollection).populate") == 1 && nerr("encoding/json.Unmarshal[*rawDocumentCollection]") == 0 && nerr("(*DocumentCollection).populate") == 0
+//@   checks [C01,C02,C11] @storeswhole result == nil ==> *d == atreturn("(*DocumentCollection).populate", *argof("(*DocumentCollection).populate", 0))  ## the receiver ends up holding exactly the populated value
+//@   checks [C01,C02,C11] @onlythesefail result != nil ==> nerr("encoding/json.Unmarshal[*rawDocumentCollection]") > 0 || nerr("(*DocumentCollection).populate") > 0
+//@   ensures [C01,C02,C11] @untouchedonfailure result != nil ==> *d == old(*d)
 
 //@ func (*DocumentCollection).raw :: (d) (result0, result1)
-//@   props C01 C02
+//@   props C01 C02 C11
 //@   requires d != nil
 //@   ensures result0 != nil && fresh(result0)
 //@   ensures err == nil ==> result0.ItemType == &d.ItemType && result0.Total == d.Total
